@@ -68,7 +68,9 @@ def main():
             elif k == "context":
                 before = snapshot()
                 try:
-                    with jaxtyped("context"):
+                    # either a fresh context-manager object per block, or ONE object for every block of the program (entered
+                    # re-entrantly when blocks nest): the object is documented as a plain context manager, nothing says single-use
+                    with (SHARED[0] if SHARED[0] is not None else jaxtyped("context")):
                         run_list(p[1], ev, orac)
                         if p[2] == "raise":
                             raise RuntimeError("exit")
@@ -132,7 +134,10 @@ def main():
                 raise KeyError(k)
 
         out = []
-        for prog in req["programs"]:
+        SHARED = [None]
+        shared = req.get("shared") or []
+        for pi, prog in enumerate(req["programs"]):
+            SHARED[0] = jaxtyped("context") if (pi < len(shared) and shared[pi]) else None
             ev, orac = [], []
             sig = "-"
             start = snapshot()
